@@ -20,5 +20,6 @@ def units(tier):
           unit("internal_t2_p1", ents(q, ["int", "uchar"] if q else allt), 2, 1, q)]
     us.append(unit("internal_t2_p2_join", [E("vp_main_pfor_join", "parallel_for(n), n in 2..3, two threads, EVERY schedule with <= 2 preemptions: all invocations have happened (and are visible) when the call returns - the join", q)], 2, 2, q))
     if not q:
-        us += [unit("internal_t3", ents(q, allt), 3, 0, q), unit("internal_t2_p2", ents(q, ["int", "uchar"]), 2, 2, q), unit("internal_t3_p1", ents(q, ["int"]), 3, 1, q)]
+        us += [unit("internal_t3", ents(q, allt), 3, 0, q), unit("internal_t2_p2", ents(q, ["int", "uchar"]), 2, 2, q),
+               unit("internal_t2_p3_join", [E("vp_main_pfor_join", "the join under every schedule with <= 3 preemptions (2 threads, n in 2..3)", q)], 2, 3, q)]
     return us
